@@ -94,6 +94,7 @@ def build(spec):
     wild_lit = via == 'lit' and ('?' in t or '*' in t)
     qs = []
     brow = [0]
+    crow = [0]
 
     def needle_ref(f, nvia):
         if nvia == 'lit':
@@ -145,6 +146,15 @@ def build(spec):
                         break
                     texts.append(t)
                     forms.append(T)
+                elif isinstance(p, dict):
+                    # a cell whose content is set through the executor over something else in the workbook: a zero, FALSE or the
+                    # empty text that is set joins as what it is
+                    v_ = p['$cell']
+                    crow[0] += 1
+                    cells[f'C{crow[0]}'] = 'zz-decoy'
+                    overrides.append(('S', 'C', str(crow[0]), v_))
+                    texts.append(('TRUE' if v_ else 'FALSE') if isinstance(v_, bool) else v_ if isinstance(v_, str) else num_text(v_))
+                    forms.append(f'C{crow[0]}')
                 elif isinstance(p, bool):
                     # the text form of a boolean is TRUE / FALSE
                     texts.append('TRUE' if p else 'FALSE')
@@ -250,7 +260,8 @@ def strategy():
                 part = st.one_of(st.just('$T'), st.sampled_from(['x', 'Yz', ' ', 'é']), st.integers(-9, 120),
                                  st.sampled_from([1.5, 0.25, 12.125, 3.7]), st.booleans(), st.sampled_from([1, 0]),
                                  st.sampled_from([[3, 3], [1, 2], [0, 5], [1, 3], [2, 3], [10, 4], [7, 7]]),
-                                 st.sampled_from(['$2.0', '$10.00', '$1e3', '$2.50', '$0.10', '$12.0']))
+                                 st.sampled_from(['$2.0', '$10.00', '$1e3', '$2.50', '$0.10', '$12.0']),
+                                 st.sampled_from([0, False, '', 0, True, 7, 'w', 1.5]).map(lambda v: {'$cell': v}))
                 qs.append({'fn': fn, 'parts': draw(st.lists(part, min_size=1, max_size=4))})
             else:
                 # needles: substrings of t (possibly case-flipped / with wildcards put in), or fresh
